@@ -22,7 +22,7 @@ import (
 	"github.com/flamego/flamego/verifharness/internal/rt"
 )
 
-const rule = "case = a valid route set (possibly empty; some routes header-constrained; default, user-supplied or handler-less not-found set-up) and 1..8 requests whose method is any string (known, lower-case, unknown, empty, with blanks) and whose URL.Path is set directly to arbitrary bytes assembled from hostile pieces (empty, repeated/trailing slashes, '%', '%zz', NUL, 0xFF, route-syntax characters, runs up to 64 KiB / 4000 segments, instances of registered routes), with nil or arbitrary headers (incl. constrained headers present with an empty list of values). " +
+const rule = "case = a valid route set (possibly empty; some routes header-constrained; default, user-supplied or handler-less not-found set-up) and 1..8 requests whose method is any string (known, lower-case, unknown, empty, with blanks) and whose URL.Path is set directly to arbitrary bytes assembled from hostile pieces (empty, repeated/trailing slashes, '%', '%zz', NUL, 0xFF, route-syntax characters, runs up to 64 KiB / 4000 segments, instances of registered routes; optionally with an over-escaped URL.RawPath next to it), with nil or arbitrary headers (incl. constrained headers present with an empty list of values). " +
 	"Oracle: nothing escapes ServeHTTP; the application middleware started exactly once; exactly one of {a route handler, the not-found chain} ran; unknown methods go to the not-found chain; serving the same request again gives the identical outcome; the handler that ran is the reference matcher's winner (paths of <=64 segments without newline). " +
 	"non-trivial = a case with a request whose path is not '/'-separated printable ASCII words (an escape, an empty segment, a non-UTF-8 or control byte, longer than 256 bytes) or whose method is not one of the nine; distinct by case text. Native fuzzing (thorough) decodes bytes into (route subset, method, not-found kind, header, path)"
 
@@ -46,6 +46,8 @@ type QReq struct {
 	// EH are header names present with an empty list of values (what
 	// in-place filtering of an http.Header leaves behind).
 	EH []string `json:"empty_value_headers,omitempty"`
+	// W: spelling on the wire (rt.Req.Wire)
+	W string `json:"wire,omitempty"`
 }
 
 type Case struct {
@@ -97,7 +99,7 @@ func checkCase(c Case) (out evid.Outcome) {
 	compiled := map[string][]model.MRoute{}
 	for _, qr := range c.Reqs {
 		m, p := unq(qr.M), unq(qr.P)
-		q := rt.Req{M: m, P: p, H: qr.H}
+		q := rt.Req{M: m, P: p, H: qr.H, Wire: qr.W}
 		serve := func() (h rt.Hit) {
 			defer func() {
 				// with NotFound() nothing marks the not-found chain: it consists of
@@ -291,7 +293,7 @@ func genCase(t *rapid.T) Case {
 			k := rapid.IntRange(0, len(joined)).Draw(t, "ksk")
 			m, pth = joined[:k], joined[k:]
 		}
-		q := QReq{M: strconv.QuoteToASCII(m), P: strconv.QuoteToASCII(pth)}
+		q := QReq{M: strconv.QuoteToASCII(m), P: strconv.QuoteToASCII(pth), W: gen.Wire(t)}
 		switch rapid.IntRange(0, 5).Draw(t, "hk") { // 5 = an empty, non-nil header map
 		case 0:
 			q.NH = true
